@@ -136,6 +136,14 @@ class Faults(object):
         return False
 
 
+class _Colour(__import__("enum").Enum):
+    RED = 1
+
+
+def _message_type_value(k):
+    return ["t:m", _Colour.RED, 5, None, b"t:bytes"][k]
+
+
 def body_E1(ctx):
     sh = ctx.shard
     faults = Faults(ctx, sh.get("F", 2))
@@ -187,17 +195,21 @@ def body_E1(ctx):
         except Exception as e:
             ctx.fail("%s raised %r for value %s with faults %r" % (what, e, vname, faults.injected))
 
+    # the message type itself is part of what is being logged: text, or (shard "mtype") an enum
+    # member, an int, None or bytes
+    MT = _message_type_value(int(sh.get("mtype", 0)))
+
     def k_log_message(inner):
-        guard("log_message", lambda: log_message("t:m", x=V))
+        guard("log_message", lambda: log_message(MT, x=V))
 
     def k_action_log(inner):
         a = current_action()
         if a is None:
             a = guard("start_task", lambda: start_task(action_type="t:t"))
-            guard("Action.log", lambda: a.log("t:alog", x=V))
+            guard("Action.log", lambda: a.log(MT, x=V))
             guard("finish", a.finish)
         else:
-            guard("Action.log", lambda: a.log("t:alog", x=V))
+            guard("Action.log", lambda: a.log(MT, x=V))
 
     def k_message_old(inner):
         guard("Message.log", lambda: Message.log(message_type="t:old", x=V))
@@ -282,6 +294,8 @@ def body_E1(ctx):
             ctx.fail("log_call swallowed the application's exception")
 
     kinds = [k_log_message, k_action_log, k_message_old, k_typed_message, k_with_ok, k_with_raise, k_typed_action, k_explicit_finish, k_traceback, k_log_call]
+    if sh.get("only_kinds"):
+        kinds = kinds[: int(sh["only_kinds"])] + [k_with_raise]
     k1 = kinds[ctx.choose(len(kinds), "first call")]
     inner = None
     if sh.get("calls", 1) >= 2:
@@ -368,6 +382,8 @@ def _e1_shards(tier):
         for ff, fe, ec in ((1, 0, 0), (0, 0, 1), (1, 1, 2), (1, 2, 1), (0, 3, 0)):
             base = {"calls": 1, "F": 2, "flaky_first": ff, "fault_exc": fe, "errcls": ec}
             out += [dict(base, prefix=p) for p in enumerate_prefixes(body_E1, "X", {}, base, 1)]
+        for mt in (1, 2, 3, 4):
+            out.append({"calls": 1, "F": 2, "flaky_first": 1, "fault_exc": 0, "errcls": 0, "mtype": mt, "only_kinds": 2})
         return out
     for ff, fe in ((1, 0), (0, 1)):
         base = {"calls": 2, "F": 2, "flaky_first": ff, "fault_exc": fe}
@@ -375,6 +391,8 @@ def _e1_shards(tier):
     for ff, fe, ec in ((1, 0, 0), (0, 0, 1), (1, 1, 2), (1, 2, 1), (0, 3, 0), (1, 0, 2)):
         base = {"calls": 1, "F": 3, "flaky_first": ff, "fault_exc": fe, "errcls": ec}
         out += [dict(base, prefix=p) for p in enumerate_prefixes(body_E1, "X", {}, base, 2)]
+    for mt in (1, 2, 3, 4):
+        out.append({"calls": 2, "F": 2, "flaky_first": mt % 2, "fault_exc": 0, "errcls": 0, "mtype": mt, "only_kinds": 2})
     return out
 
 
@@ -390,7 +408,7 @@ OBLIGATIONS = [
         twin=[{"calls": 1, "F": 2, "flaky_first": 1, "twin_label": "two-faults"}],
         timeout={"quick": 100, "thorough": 1500},
         path_timeout=60,
-        bounds={"quick": "one entry-point kind (each makes 1-4 logging calls) x 12 values x <= 2 injected faults at solver-chosen fault points, flaky destination before/after the real FileDestination", "thorough": "two kinds (second nested inside the first's action where it has one) x 12 values x <= 2 faults for two fault-exception/ordering configurations; one kind x <= 3 faults for all five"},
+        bounds={"quick": "one entry-point kind (each makes 1-4 logging calls) x 12 values x <= 2 injected faults at solver-chosen fault points, flaky destination before/after the real FileDestination; log_message / Action.log with a message type that is an enum member, an int, None or bytes (12 values, <= 2 faults)", "thorough": "two kinds (second nested inside the first's action where it has one) x 12 values x <= 2 faults for two fault-exception/ordering configurations; one kind x <= 3 faults for all five"},
     ),
     Ob("L1", L1, body_L1, "S", desc="safeunicode/saferepr/_safe_unicode_dictionary return str and never raise", functions=["safeunicode", "saferepr", "_safe_unicode_dictionary"], shards={"quick": [{"kind": "str"}, {"kind": "raising-dunders"}]}, twin=[{"kind": "str"}], timeout={"quick": 100, "thorough": 300}, bounds={"quick": "safeunicode on any str of length <= 4; all three helpers on objects whose __str__/__repr__ raise exceptions carrying any int"}),
 ]
